@@ -14,6 +14,7 @@ import (
 	"go/printer"
 	"go/token"
 	"path/filepath"
+	"sort"
 	"strings"
 )
 
@@ -167,5 +168,53 @@ func runFacts(repo string) (map[string]any, error) {
 	_, ptype := px.poolField()
 	res["garblePool_type"] = ptype
 	res["new_scratch"] = px.newScratch()
+	res["collector_hooks"] = px.collectorHooks()
 	return res, nil
+}
+
+// collectorHooks lists the places where package circuit hands an object to the
+// garbage collector's callback machinery (runtime.SetFinalizer,
+// runtime.AddCleanup, weak.Make), as "<enclosing func>: <callee>".  The Lean
+// model of GC histories (Model/PoolGC.lean, fin = false) has no collector
+// transition; what such a hook DOES is judged by the GC-history oracle, so the
+// list is an advisory fact (a drift widens the GC-history search).
+func (px *pkgIndex) collectorHooks() []string {
+	res := []string{}
+	for _, f := range px.fc.files {
+		for _, d := range f.Decls {
+			fd, ok := d.(*ast.FuncDecl)
+			if !ok || fd.Body == nil {
+				continue
+			}
+			name := fd.Name.Name
+			if r := recvTypeName(fd); r != "" {
+				name = r + "." + name
+			}
+			ast.Inspect(fd.Body, func(n ast.Node) bool {
+				ce, ok := n.(*ast.CallExpr)
+				if !ok {
+					return true
+				}
+				fun := ce.Fun
+				if ix, ok := fun.(*ast.IndexExpr); ok { // generic instantiation f[T](…)
+					fun = ix.X
+				}
+				se, ok := fun.(*ast.SelectorExpr)
+				if !ok {
+					return true
+				}
+				id, ok := se.X.(*ast.Ident)
+				if !ok || !px.imports[id.Name] {
+					return true
+				}
+				switch id.Name + "." + se.Sel.Name {
+				case "runtime.SetFinalizer", "runtime.AddCleanup", "weak.Make":
+					res = append(res, name+": "+id.Name+"."+se.Sel.Name)
+				}
+				return true
+			})
+		}
+	}
+	sort.Strings(res)
+	return res
 }
